@@ -15,6 +15,7 @@ pub fn check(p: &Pos, rep: &mut Report, rng: &mut StdRng) {
         let u = m.uci();
         let replay = json!({"kind":"c02","fen":fen,"move":u});
         let want = p.make(m).to_fen();
+        let mut others: Option<(Option<Result<String, String>>, Option<Result<String, String>>)> = None;
         let r = guarded_mut(|| {
             let mut bb = load(p)?;
             let mv = match find_move(&bb, &u) {
@@ -22,7 +23,18 @@ pub fn check(p: &Pos, rep: &mut Report, rng: &mut StdRng) {
                 None => return Ok(None),
             };
             bb.make(mv);
-            Ok::<_, String>(Some(fen_of(&bb)))
+            let by_make = fen_of(&bb);
+            // the same move played through the other two public ways to play it: the text form
+            // (`make_uci`, which the engine's position command and the bot use), and — for captures
+            // and promotions — the Move value of the capture/promotion-only generator (what the
+            // quiescence search plays)
+            let mut b2 = load(p)?;
+            let by_text = match b2.make_uci(&u) { Ok(()) => Some(fen_of(&b2)), Err(_) => None };
+            let mut b3 = load(p)?;
+            let noisy = b3.generate_pseudo_legal_non_quiescent_moves().into_iter().find(|x| x.to_uci_string() == u);
+            let by_noisy = noisy.map(|x| { b3.make(x); fen_of(&b3) });
+            others = Some((by_text, by_noisy));
+            Ok::<_, String>(Some(by_make))
         });
         let kind = move_kind(p, &u);
         match r {
@@ -34,6 +46,24 @@ pub fn check(p: &Pos, rep: &mut Report, rng: &mut StdRng) {
                 if got != want {
                     let d = fen_fields_diff(&got, &want);
                     rep.violation(&format!("successor:{}:{}", d, kind), format!("{} + {}: code {} | rules {}", fen, u, got, want), replay);
+                }
+            }
+        }
+        if let Some((by_text, by_noisy)) = others {
+            match by_text {
+                None => rep.violation(&format!("make_uci-refuses-legal-move:{}", kind), format!("make_uci({}) refused in {}", u, fen), json!({"kind":"c02","fen":fen,"move":u})),
+                Some(Err(pm)) => rep.violation("fen-after-make_uci-panic", pm, json!({"kind":"c02","fen":fen,"move":u})),
+                Some(Ok(got)) => if got != want {
+                    rep.violation(&format!("successor-by-make_uci:{}:{}", fen_fields_diff(&got, &want), kind), format!("{} + make_uci({}): code {} | rules {}", fen, u, got, want), json!({"kind":"c02","fen":fen,"move":u}));
+                },
+            }
+            if let Some(r3) = by_noisy {
+                rep.count("successors_by_capture_generator_moves");
+                match r3 {
+                    Err(pm) => rep.violation("fen-after-capture-generator-move-panic", pm, json!({"kind":"c02","fen":fen,"move":u})),
+                    Ok(got) => if got != want {
+                        rep.violation(&format!("successor-by-capture-generator-move:{}:{}", fen_fields_diff(&got, &want), kind), format!("{} + {} (Move of the capture/promotion generator): code {} | rules {}", fen, u, got, want), json!({"kind":"c02","fen":fen,"move":u}));
+                    },
                 }
             }
         }
